@@ -70,6 +70,18 @@ def falsify_single(ctx, case: Dict) -> bool:
     return False
 
 
+def owned_names(ind) -> set:
+    """Names of the series an indicator writes: its own and its helpers' at any depth."""
+    out = {ind.name}
+    for sub in [*ind.sub_indicators.values(), *ind.managed_indicators.values()]:
+        out |= owned_names(sub)
+    return out
+
+
+def all_keys(h) -> List[set]:
+    return [set(c.indicators) | set(c.sub_indicators) for cs in h.get_candles().values() for c in cs]
+
+
 def apply(h, ops_log, op, members):
     k = op[0]
     if k == "append":
@@ -95,7 +107,7 @@ def falsify_program(ctx, case: Dict) -> bool:
     stage = None
     try:
         with core.time_limit(60):
-            ms = [hx.member(s) for s in specs]
+            ms = [hx.member(s, s.get("tf")) for s in specs]
             names = [m.name for m in ms]
             if len(set(names)) != len(names):
                 return False
@@ -121,7 +133,7 @@ def falsify_program(ctx, case: Dict) -> bool:
                     if op2[1] in h.indicators:
                         active = [s for s, nm in zip(active, [m for m in h.indicators]) if nm != op2[1]]
                 if op[0] == "add":
-                    new = hx.member(op[1])
+                    new = hx.member(op[1], op[1].get("tf"))
                     if new.name in h.indicators:
                         continue
                     active.append(op[1])
@@ -129,11 +141,22 @@ def falsify_program(ctx, case: Dict) -> bool:
                     continue
                 if op[0] == "append":
                     fed = fed + op[1]
+                before = all_keys(h) if op[0] == "purge" and op2[1] in h.indicators else None
                 apply(h, None, tuple(op2[:3]) if op[0] == "calc_index" else tuple(op2), ms)
+                if before is not None:
+                    # purge(name) removes that indicator's entries and nothing else
+                    gone = set().union(*[b - a for b, a in zip(before, all_keys(h))]) if before else set()
+                    others = set().union(*[owned_names(o) for nm_, o in h.indicators.items() if nm_ != op2[1]]) \
+                        if len(h.indicators) > 1 else set()
+                    if gone & others:
+                        bad = {"relation": "purge-removes-entries-of-another-indicator"}
+                        break
+            if bad:
+                raise StopIteration
             stage = "final-calculate"
             h.calculate()
             final = {nm: copy.deepcopy(ind.as_list()) for nm, ind in h.indicators.items()}
-            batch = hx.hexital(fed, [hx.member(s) for s in active])
+            batch = hx.hexital(fed, [hx.member(s, s.get("tf")) for s in active])
             batch.calculate()
             want = {nm: ind.as_list() for nm, ind in batch.indicators.items()}
             if final.keys() != want.keys():
@@ -143,6 +166,8 @@ def falsify_program(ctx, case: Dict) -> bool:
                     if not E.same_value_list(final[nm], want[nm]):
                         bad = {"relation": "final-calculate-differs-from-batch", "indicator": batch.indicators[nm]._name or type(batch.indicators[nm]).__name__}
                         break
+    except StopIteration:
+        pass
     except Exception as e:  # noqa
         bad = {"relation": "raises", "exc": type(e).__name__, "stage": stage}
     if bad:
@@ -232,6 +257,40 @@ def gen_shared_helper_program(rng, ctx) -> Dict:
     return {"specs": specs, "rows": rows, "init": rows, "ops": ops}
 
 
+def gen_prefix_program(rng, ctx) -> Dict:
+    """Two members whose names are related by "<name>" / "<name>_<suffix>" (so the second one's
+    helper series start with the first one's name), possibly on a shared collapsing timeframe;
+    maintenance aimed at one of them in the middle of the stream, appends after it."""
+    tf = rng.choice(["T2", "T5", "T10"]) if rng.random() < 0.4 else None
+    n = rng.randint(15, 50) if tf is None else rng.randint(40, 160)
+    rows = X.gen_rows(rng, n, late=0)
+    k = rng.choice(["RSI", "STDEV", "SUPERTREND", "ADX", "STOCH", "TSI", "MACD", "BBANDS", "KC", "HMA", "ATR", "VWAP", "EMA", "SMA"])
+    a = X.gen_spec(rng, k, inputs=("close",))
+    a["round_value"] = 4
+    if rng.random() < 0.6:
+        b = {"kind": k, "kw": dict(a["kw"]), "round_value": 4, "name_suffix": rng.choice(["hi", "b", "x2"])}
+        if k in X.HAS_INPUT:
+            b["kw"]["input_value"] = rng.choice(["high", "close"])
+    else:
+        b = X.gen_spec(rng, rng.choice(["EMA", "SMA", "RSI", "ATR", "BBANDS"]), inputs=("close", "high"))
+        b["round_value"] = 4
+        b["name_suffix"] = "o"
+    specs = [a, b] if rng.random() < 0.5 else [b, a]
+    for s_ in specs:
+        if tf:
+            s_["tf"] = tf
+    cut = rng.randint(0, n - 1)
+    mid = rng.randint(cut, n - 1)
+    ops = [("calculate", None)] if rng.random() < 0.7 else []
+    ops += [("append", [r]) for r in rows[cut:mid]]
+    for _ in range(rng.randint(1, 3)):
+        r = rng.random()
+        who = rng.randrange(2)
+        ops.append(("purge", who) if r < 0.4 else ("recalculate", who) if r < 0.6 else ("remove", who) if r < 0.85 else ("calculate", who))
+    ops += [("append", [r]) for r in rows[mid:]]
+    return {"specs": specs, "rows": rows, "init": rows[:cut], "ops": ops}
+
+
 def run(ctx: core.Ctx) -> int:
     proof = C.check_props("C14")
     ctx.proof_broken.extend(proof["broken"])
@@ -261,6 +320,8 @@ def run(ctx: core.Ctx) -> int:
         programs.append(gen_program(rng, ctx))
     for _ in range(ctx.n(60, 700)):
         programs.append(gen_shared_helper_program(rng, ctx))
+    for _ in range(ctx.n(80, 900)):
+        programs.append(gen_prefix_program(rng, ctx))
     for c in programs:
         ctx.count("eval_falsifier")
         falsify_program(ctx, c)
